@@ -180,6 +180,19 @@ Proof.
   destruct (l2 =? l1); reflexivity.
 Qed.
 
+(* ---- NewThrottlingChecker: the ms -> ns conversions (uint32 inputs: no int64 wrap) ---- *)
+Theorem throttling_New_ok T timeout_ms stat_ms : in_u32 timeout_ms -> in_u32 stat_ms ->
+  throttling_New stat_ms timeout_ms
+  = (maxq_ns (mk_cfg T timeout_ms stat_ms), ival_ns (mk_cfg T timeout_ms stat_ms), last0).
+Proof.
+  intros Ht Hs. unfold throttling_New, mk_cfg, ms_to_ns, last0. cbn [maxq_ns ival_ns]. cbv zeta.
+  assert (B : forall x, in_u32 x -> i64 (x * 1000000) = x * 1000000).
+  { intros x Hx. apply i64_id. unfold in_i64, in_u32 in *. Transparent two63 two32. unfold two63, two32 in *. lia. }
+  rewrite (B timeout_ms Ht).
+  destruct (stat_ms =? 0); [|rewrite (B stat_ms Hs); reflexivity].
+  rewrite (B 1000); [reflexivity|]. unfold in_u32, two32. lia.
+Qed.
+
 (* non-vacuity of the range hypothesis: 10 tokens/s, second request 30 ms after the first *)
 Example no_wrap_nonvacuous :
   no_wrap (mk_cfg 10%float 500 1000) 1 1700000000030000000 1700000000000000000.
@@ -190,3 +203,4 @@ Print Assumptions throttling_DoCheck_step_ok.
 Print Assumptions throttling_DoCheck_seq.
 Print Assumptions throttling_DoCheck_conc_start.
 Print Assumptions throttling_DoCheck_conc_retry.
+Print Assumptions throttling_New_ok.
